@@ -226,6 +226,8 @@ def alpha_strings(A, seed, count, maxlen, low=()):
             continue
         if v < 0.2:           # a short motif repeated: deep regular structure
             motif = [rng.choice(A) for _ in range(rng.randint(1, 4))]
+            if rng.random() < 0.12:
+                L = rng.choice((1500, 2500, 4000))     # hundreds of sibling branches / rings in one frame
             out.append("".join(motif[i % len(motif)] for i in range(L)))
             continue
         if v < 0.28 and structural:   # structure symbols where atoms are expected
@@ -345,6 +347,17 @@ def _execute_one(sf, op, pos, H, passive):
             o = outcome(sf.set_semantic_constraints, arg)
             H[("ret", idx)] = o[3]         # whatever the call returns is an object the caller may keep
             rec["r"] = o[:3]
+        elif k == "set_from":
+            # the caller passes an object it got from the library earlier (get / get_preset), as is
+            obj = H.get(op["h"])
+            if isinstance(obj, dict):
+                rec["arg"] = norm(obj)
+                o = outcome(sf.set_semantic_constraints, obj)
+                H[idx] = obj
+                H[("ret", idx)] = o[3]
+                rec["r"] = o[:3]
+            else:
+                rec["r"] = ("skip", None, None)
         elif k == "get":
             o = outcome(sf.get_semantic_constraints)
             H[idx] = o[3]
@@ -461,11 +474,11 @@ def attributable(prop, viol, ops, log):
         for op, rec in upto:
             if op["op"] == "mutate" and rec["r"][1]:
                 return True
-            if op["op"] in ("set_table", "set_preset") and rec["r"][0] == "err":
+            if op["op"] in ("set_table", "set_preset", "set_from") and rec["r"][0] == "err":
                 return True
         return False
     if need == "set":
-        return any(op["op"] in ("set_table", "set_preset") and rec["r"][0] == "ok" for op, rec in upto)
+        return any(op["op"] in ("set_table", "set_preset", "set_from") and rec["r"][0] == "ok" for op, rec in upto)
     return False
 
 
@@ -506,6 +519,28 @@ class Verifier:
         for idx, (op, rec) in enumerate(zip(ops, log)):
             k = op["op"]
             r = rec["r"]
+            if k == "set_from":
+                if r[0] == "skip":
+                    continue
+                arg = _denorm(rec["arg"])
+                litr = repr(arg)
+                fresh = ask(("lit", litr), ("get",))
+                probe("checked:set_acceptance_eq_oracle")
+                probe("set_from_returned_object")
+                if (r[0] == "ok") != (fresh[0] == "ok"):
+                    out.append(Violation("set_acceptance_eq_oracle", idx, {"arg": litr[:300], "here": r[:2], "fresh_interpreter": fresh[:2]}))
+                if r[0] == "ok":
+                    prev_src = model.src
+                    model.set_ok(arg, litr)
+                    since_change = 0
+                    from_import = False
+                else:
+                    last_fault = idx
+                if "p" in rec:
+                    g, ps = rec["p"]
+                    if model.known and g != ("ok", norm(model.table)):
+                        out.append(Violation("get_eq_model", idx, {"after": k, "got": g, "want": norm(model.table)}))
+                continue
             if k in ("set_preset", "set_table"):
                 fault = k == "set_table" and "why" in op
                 # whether an update is accepted must not depend on what happened before: ask a fresh interpreter
@@ -686,6 +721,13 @@ class Verifier:
             probe("discriminating_query")
             if (old[0] == "err") != (want[0] == "err"):
                 probe("flip_accept_reject")
+
+
+def _denorm(n):
+    """('dict', (k, v), ...) -> dict (plain keys and values only)."""
+    if isinstance(n, tuple) and n[:1] == ("dict",):
+        return {k: v for k, v in n[1:]}
+    return n
 
 
 def _setdiff(a, b):
